@@ -1,2 +1,7 @@
 import TransportVerif.Props.C14
-#print axioms TV.Props.C14.placeholder
+#print axioms TV.Props.C14.no_panic
+#print axioms TV.Props.C14.not_before_delay
+#print axioms TV.Props.C14.fifo_exactly_once
+#print axioms TV.Props.C14.timer_never_dead
+#print axioms TV.Props.C14.timer_never_dead_of_delay_le_minute
+#print axioms TV.Props.C14.tick_forwards_due_head
